@@ -124,14 +124,38 @@ func reqURL(path, vers, ext string) string {
 
 func isPseudo(v string) bool { return module.IsPseudoVersion(v) }
 
-// checkDirectory serves mods and checks every stored version and the near-misses.
+// checkDirectory serves mods and checks every stored version and the near-misses:
+// once on a fresh server, and once on a fresh server that has first answered
+// commit-hash style requests (whose own answers the statement does not define,
+// but which must not change what is served for stored versions afterwards).
 func checkDirectory(dir string, mods []modVer, st *stats) string {
+	if v := checkDirectoryOnce(dir, mods, st, false); v != "" {
+		return v
+	}
+	if v := checkDirectoryOnce(dir, mods, nil, true); v != "" {
+		return "after commit-hash requests: " + v
+	}
+	return ""
+}
+
+func checkDirectoryOnce(dir string, mods []modVer, st *stats, hashFirst bool) string {
 	writeDir(dir, mods)
 	srv, err := goproxytest.NewUnstartedVerif(dir, func(string, ...any) {})
 	if err != nil {
 		return fmt.Sprintf("server does not start: %v", err)
 	}
 	h := srv.HandlerVerif()
+	if hashFirst {
+		for _, m := range mods {
+			for _, hash := range []string{"abcdef123456", "abcdef", "0123456789ab"} {
+				for _, ext := range []string{"zip", "info", "mod"} {
+					if _, pan := get(h, reqURL(m.Path, hash, ext)); pan != nil {
+						return fmt.Sprintf("GET %s panics: %v", reqURL(m.Path, hash, ext), pan)
+					}
+				}
+			}
+		}
+	}
 	stored := map[string]modVer{}
 	paths := map[string]bool{}
 	for _, m := range mods {
